@@ -191,6 +191,7 @@ def check(run):
             "python": replay_snippet(small.expr, small.ops)}, found_input=False)
     check_seeded(run)
     check_edges(run)
+    check_constant_holders(run)
     check_tuple_patterns(run)
     if cases:
         run.sample({"expr": to_source(cases[0].expr), "ops": [list(o) for o in cases[0].ops], "observed": cases[0].obs_pretty()})
@@ -1148,6 +1149,140 @@ META["text"] += (" Arguments at and beyond the edges of the domain (edge stream,
                  "engine P with starting values outside [min, max], min = max, zero steps, lengths 0 / 1, empty lists, probabilities 0 / 1 - judged where the "
                  "docstring documents the argument, compared with the Pat/Chance.v machines (which take their arguments as given: Props/C04Edges.v, "
                  "C04_brown_any_arguments, C04_brown_starts_at_init) also beyond it.")
+
+
+# ==========================================================================================================
+# PConstant holders: PATTERNS AND TUPLES-WITH-PATTERNS HELD BY A PConstant - created implicitly by Pattern.pattern() for
+# the values of a PDict / event dict, or explicitly (PConstant(p) as an operand, Pattern.pattern(tuple) as the list of a
+# PArrayIndex, a PConstant item of a PSequence).  The consumer's Pattern.value() advances what is inside; reset() on the
+# consumer must rewind it.  Oracle: outputs after reset()/all() = a newly constructed instance.  Model: Pat/ConstHolder.v
+# (C04_constant_holder_rewinds), compared inside Coq for a PDict with one tuple-valued key.
+# ==========================================================================================================
+HOLDER_HEADER = HEADER + "From Isobar Require Import Pat.ConstHolder.\n"
+
+
+def holder_tuple(rng, gen, depth=0):
+    """(python source, Coq earg) of a tuple holding 1-2 patterns of engine P, scalars and sometimes a nested tuple"""
+    items = []
+    n = rng.randint(2, 4)
+    pat_at = {rng.randrange(n)} | ({rng.randrange(n)} if rng.random() < 0.4 else set())
+    for j in range(n):
+        if j in pat_at:
+            e = gen.gen(rng.choice([0, 0, 1]), rng.random() < 0.4)
+            items.append((to_source(e), "(EP %s)" % to_coq(e)))
+        elif depth < 1 and rng.random() < 0.25:
+            items.append(holder_tuple(rng, gen, depth + 1))
+        else:
+            v = rng.randint(36, 72)
+            items.append((repr(v), "(EV (VInt %d))" % v))
+    return "(%s,)" % ", ".join(a for a, _ in items), "(ET %s)" % lst([b for _, b in items])
+
+
+def check_constant_holders(run):
+    rng = run.rng
+    gen = Gen(rng, run)
+    cases = []
+    for i in range(1400 if run.tier == "thorough" else 140):
+        try:
+            tsrc, tcoq = holder_tuple(rng, gen)
+        except Unrepresentable:
+            continue
+        e = gen.gen(rng.choice([0, 1]), rng.random() < 0.4)
+        ps = to_source(e)
+        k = i % 7
+        model = None
+        if k == 0:
+            inner, model = "iso.PDict({'note': %s})" % tsrc, tcoq
+        elif k == 1:
+            inner = "iso.PDict({'note': %s, 'amp': %d, 'dur': %s})" % (tsrc, rng.randint(1, 9), ps)
+        elif k == 2:
+            inner = "(iso.PConstant(%s) + %d)" % (ps, rng.randint(1, 100))
+        elif k == 3:
+            inner = "iso.PArrayIndex(iso.Pattern.pattern(%s), iso.PSequence(%r))" % (tsrc, [rng.randint(0, 1) for _ in range(3)])
+        elif k == 4:
+            inner = "iso.PSequence([iso.PConstant(%s), %d], %d)" % (tsrc, rng.randint(0, 9), rng.randint(2, 4))
+        elif k == 5:
+            inner = "iso.PDictKey(iso.PDict({'note': %s, 'x': 1}), 'note')" % tsrc
+        else:
+            inner = "iso.PAbs(iso.PConstant(%s))" % ps
+        ops = ["next"] * rng.choice([1, 1, 2, 3, 5, 8]) + [["reset"]] + ["next"] * rng.randint(2, 6)
+        x = rng.random()
+        if x < 0.3:
+            ops += [["reset"], ["reset"]] + ["next"] * rng.randint(1, 4)
+        elif x < 0.5:
+            ops += [["all", rng.randint(1, 5)]] + ["next"] * rng.randint(1, 4)
+        cases.append({"cls": "PConstant", "form": ["PDict-one-key", "PDict", "operand", "PArrayIndex-list", "PSequence-item", "PDictKey", "PAbs"][k],
+                      "inner": inner, "objs": None, "wrap": None, "setup": [], "ops": ops, "stochastic": False, "record": False,
+                      "refs": [{"setup": [], "n": S_REFN}], "model": model})
+    shards = 8
+    parts = [cases[i::shards] for i in range(shards) if cases[i::shards]]
+    outs = {}
+    for part, res in zip(parts, run.impl_parallel("c04_impl", [{"cases": [{k: c[k] for k in CASE_KEYS} for c in part]} for part in parts])):
+        for c, r in zip(part, res["cases"]):
+            outs[id(c)] = r
+    devs, terms, owners = [], [], []
+    for c in cases:
+        out = outs[id(c)]
+        run.count(); run.dist("stream.constant-holders"); run.dist("holder." + c["form"])
+        try:
+            dev = seeded_judge(c, out)
+        except CannotJudge as e:
+            run.discard("holders: " + str(e)); continue
+        run.cov["oracle_evaluations"] += len(out["events"])
+        run.nontrivial("holder " + c["inner"] + repr(c["ops"]))
+        if dev is not None:
+            devs.append((len(c["inner"]) + len(c["ops"]), len(devs), c, out, dev))
+            continue
+        if c["model"] and not any(isinstance(o, list) and o[0] == "all" for o in c["ops"]):
+            try:
+                exp = []
+                for op, o in zip(c["ops"], out["events"]):
+                    if op == "next" and isinstance(o, dict) and "y" in o:
+                        exp.append(obs_coq({"y": to_json(from_json(o["y"])["note"])}))
+                    else:
+                        exp.append(obs_coq(o))
+                terms.append("hcheck Val.binop LMAX FUEL %s %s %s" % (c["model"], lst([blit(op == "next") for op in c["ops"]]), lst(exp)))
+                owners.append((c, out))
+            except (Unrepresentable, KeyError, TypeError):
+                run.discard("holders model: unrepresentable")
+    reported = set()
+    for _, _, c, out, dev in sorted(devs, key=lambda t: t[:2]):
+        if c["form"] in reported or len(reported) >= 4:
+            continue
+        reported.add(c["form"])
+        run.violation({"kind": "reset", "class": "PConstant", "held-by": c["form"], "stratum": "pattern-held-by-a-PConstant"}, {
+            "case": {"seeded": {k2: c.get(k2) for k2 in DOC_KEYS}},
+            "expected": "clean segment %d (after reset()/all()), output %d: %s  [what a newly constructed instance produces]" % (dev["segment"], dev["index"], dev["expected"]),
+            "observed": dev["observed"], "segment_outputs": dev["segment_outputs"], "reference_outputs": dev["reference_outputs"],
+            "python": seeded_snippet(c)})
+    codes = []
+
+    def one(i0):
+        srcc = HOLDER_HEADER + "\nDefinition results : list nat := [\n" + ";\n".join(terms[i0:i0 + 40]) + "\n].\nEval vm_compute in results.\n"
+        return parse_nat_list(run.coqc_text("holder%d" % i0, srcc, timeout=300))
+    with ThreadPoolExecutor(max_workers=4) as ex:
+        for r in ex.map(one, range(0, len(terms), 40)):
+            codes.extend(r)
+    run.cov["constant_holder_model_comparisons"] = len(terms)
+    bad = False
+    for (c, out), k in zip(owners, codes):
+        if k == 0:
+            run.cov["traces_validated_against_impl"] += 1
+        elif k == 2:
+            run.discard("holders model: Inexact/OutOfFuel")
+        elif not bad:
+            bad = True
+            run.violation({"kind": "correspondence", "class": "PConstant", "model": "Pat/ConstHolder.v"}, {
+                "broken": "correspondence Pat/ConstHolder.v (hvalue / hreset: a PConstant holding a tuple with patterns, read by Pattern.value) vs the "
+                          "implementation: C04_constant_holder_rewinds no longer speaks about this code",
+                "case": {"seeded": {k2: c.get(k2) for k2 in DOC_KEYS}}, "observed": [pretty_obs(o) for o in out["events"]],
+                "python": seeded_snippet(c)}, found_input=False)
+
+
+META["text"] += (" Patterns and tuples-with-patterns held by a PConstant (Pattern.pattern() wraps PDict values and operands; the consumer's "
+                 "Pattern.value() advances what is inside): Pat/ConstHolder.v, C04_constant_holder_rewinds (after any number of reads reset() gives what "
+                 "it gives on the untouched holder, for every argument of the fragment xarg - tuples to any depth), tied to the repository by the "
+                 "constant-holders stratum (PDict values, operands, PArrayIndex lists, PSequence items, PDictKey, PAbs).")
 
 
 def replay(run, doc):
